@@ -1144,15 +1144,7 @@ fn attribute(n0: &Norm, first: &Mis, bom_class: bool) -> (String, String) {
     if needed.iter().any(|s| matches!(s, Step::Slots)) {
         let dos = dos_slots();
         let ed = |r: std::ops::Range<usize>| r.into_iter().any(|i| a.n.slots[i] != dos[i]);
-        if ed(0..1) {
-            feats.push("edited_slot0".into());
-        }
-        if ed(1..8) {
-            feats.push("edited_low_slot".into());
-        }
-        if ed(8..16) {
-            feats.push("edited_high_slot".into());
-        }
+        feats.push(if ed(0..1) && !ed(1..16) { "edited_slot0".into() } else { "edited_palette_slot".into() });
     }
     for s in &needed {
         if let Step::Feature(i) = s {
